@@ -1123,6 +1123,7 @@ func checkC20(P *Prog, r *Result) {
 			r.undecided("C20/predicate", c, l.pos, fmt.Sprintf("no documented predicate frozen for issue code %q on subject class %q", l.code, class))
 			continue
 		}
+		regexGlobalNames = nil
 		got, probs := P.canonicalPredicateEnvT(cl, env, targs)
 		if len(probs) > 0 {
 			r.undecided("C20/predicate", c, P.pos(cl.Pos()), "predicate closure has an unrecognised shape: "+strings.Join(probs, "; "), "formula so far: "+got)
@@ -1130,11 +1131,39 @@ func checkC20(P *Prog, r *Result) {
 		}
 		if formulaEquiv(got, exp.form) {
 			r.ok("C20/predicate", c, P.pos(cl.Pos()), fmt.Sprintf("%s: %s", exp.doc, got))
+			// the pattern the predicate matches against accepts exactly the documented grammar
+			if ref, has := c20RegexRef[l.code]; has {
+				names := uniqSorted(regexGlobalNames)
+				switch {
+				case len(names) != 1:
+					r.undecided("C20/regexp-language", c, P.pos(cl.Pos()), fmt.Sprintf("the predicate refers to %d regular-expression globals (expected one)", len(names)))
+				default:
+					pat, pos, okPat := P.regexGlobalPattern(names[0])
+					if !okPat {
+						r.undecided("C20/regexp-language", c, P.pos(cl.Pos()), "the pattern of "+names[0]+" is not a single constant compiled in the package initialiser")
+						break
+					}
+					eq, witness, onlyA, decided, err := regexEquivalent(pat, ref.pattern)
+					switch {
+					case err != nil:
+						r.undecided("C20/regexp-language", c, pos, err.Error())
+					case !decided:
+						r.undecided("C20/regexp-language", c, pos, "the automata of the pattern and of the documented grammar are too large to compare")
+					case eq:
+						r.ok("C20/regexp-language", c, pos, "the pattern accepts exactly "+ref.doc+" (automata compared)")
+					case onlyA:
+						r.bad("C20/regexp-language", c, pos, fmt.Sprintf("the pattern of the %q test accepts %q, which is not in the documented grammar (%s)", l.code, witness, ref.doc), "pattern:   "+pat, "reference: "+ref.pattern)
+					default:
+						r.bad("C20/regexp-language", c, pos, fmt.Sprintf("the pattern of the %q test rejects %q, which the documented grammar (%s) accepts", l.code, witness, ref.doc), "pattern:   "+pat, "reference: "+ref.pattern)
+					}
+				}
+			}
 		} else {
 			r.bad("C20/predicate", c, P.pos(cl.Pos()), fmt.Sprintf("the built-in test reporting %q does not compute its documented predicate (%s)", l.code, exp.doc), "expected: "+exp.form, "found:    "+got)
 		}
 	}
 	r.floor("C20/predicate", 22)
+	r.floor("C20/regexp-language", 2)
 	// A kind whose subject type has its own documented predicate (time: instants compared with Equal, not ==)
 	// must not build that test from the generic constructor: `p.EQ[time.Time](t)` compiles — time.Time is
 	// comparable — and compares wall clock, location and monotonic reading. Every instantiation of a generic
@@ -1567,6 +1596,46 @@ func normaliseRegexGlobals(s string) string {
 			rest := normaliseRegexGlobals(s[k:])
 			return s[:k] + rest
 		}
+		regexGlobalNames = append(regexGlobalNames, s[j:k])
 		s = s[:j] + "REGEXP" + s[k:]
 	}
+}
+
+// regexGlobalNames: the regular-expression globals the formulas normalised since the last reset referred to.
+var regexGlobalNames []string
+
+// c20RegexRef: the documented grammar of the built-in tests that match a package-level pattern, as a reference
+// pattern; the constant in the source must accept exactly the same strings (regexequiv.go).
+var c20RegexRef = map[string]struct{ pattern, doc string }{
+	"email": {"^[a-zA-Z0-9.!#$%&'*+/=?^_`{|}~-]+@[a-zA-Z0-9](?:[a-zA-Z0-9-]{0,61}[a-zA-Z0-9])?(?:\\.[a-zA-Z0-9](?:[a-zA-Z0-9-]{0,61}[a-zA-Z0-9])?)*$", "the HTML5 (WHATWG) valid e-mail address grammar"},
+	"uuid":  {"^[0-9a-fA-F]{8}-[0-9a-fA-F]{4}-[0-9a-fA-F]{4}-[0-9a-fA-F]{4}-[0-9a-fA-F]{12}$", "8-4-4-4-12 hexadecimal digits, either case, nothing before or after"},
+}
+
+// regexGlobalPattern: the constant pattern a regular-expression global of the root package is compiled from.
+func (P *Prog) regexGlobalPattern(name string) (string, string, bool) {
+	pat, pos, n := "", "", 0
+	for _, fn := range P.Funcs {
+		if fn.Synthetic != "package initializer" {
+			continue
+		}
+		eachInstr(fn, func(_ *ssa.BasicBlock, _ int, in ssa.Instruction) {
+			st, ok := in.(*ssa.Store)
+			if !ok {
+				return
+			}
+			g, ok := st.Addr.(*ssa.Global)
+			if !ok || g.Name() != name || !strings.Contains(typeStr(g.Type()), "regexp.Regexp") {
+				return
+			}
+			if call, ok := st.Val.(*ssa.Call); ok {
+				if ci := callOf(call); ci.static != nil && ci.static.String() == "regexp.MustCompile" {
+					if s, isC := constString(call.Call.Args[0]); isC {
+						pat, pos = s, P.ipos(in)
+						n++
+					}
+				}
+			}
+		})
+	}
+	return pat, pos, n == 1
 }
